@@ -66,6 +66,12 @@ def monitor_with_ops(ctx):
                     active.remove(e[1])
             if active:
                 return ("%s: layers %r were not torn down" % (pname, active), "C16:cleanup")
+        crash = cw.runner_crash(c)
+        if crash:
+            return ("the runner itself raised instead of ending the run: %s" % crash, "C16:abort")
+        parsed_ = worlds.parse_output(c.obs.stdout)
+        if len(parsed_["headers"]) >= 2 and parsed_["total"] is None:
+            return ("%d layers were run but no 'Total:' line was printed" % len(parsed_["headers"]), "C16:summary")
         if any_bad and c.obs.exit != 1:
             return ("a failure/error was recorded but the exit status is %r" % c.obs.exit, "C16:verdict")
         if any_bad and "Ran " not in c.obs.stdout and not any(not e[2] for e in parent if e[0] == "lsu"):
